@@ -361,6 +361,116 @@ fn shard(seed: u64, shard: u64, n: u64) -> Tally {
 
 /// Byte-order marks at the start of a form body: U+FEFF spelled in UTF-8 is an ordinary (if odd) character of the
 /// first parameter name and stays signed; UTF-16 text behind a UTF-16 BOM is not UTF-8 and must be refused.
+/// Presigned form POSTs whose body repeats an authentication parameter of the URL with another value. Folding appends the
+/// body's parameters to the URL's: the URL's copy stays the first value, the body's copy is an ordinary later value (signed
+/// like any other parameter, except `X-Amz-Signature`, which never is). The request is signed as received; in the twin the
+/// two values are exchanged, so the valid one sits in the body, which must not authenticate.
+fn body_repeats_auth_parameter(seed: u64, shard: u64, n: u64) -> Tally {
+    let mut t = Tally::new();
+    const PH: &str = crate::gen::SIG_PLACEHOLDER;
+    for i in 0..n {
+        let mut r = Rng::keyed(seed, "C12", "body-repeats", shard, i);
+        let mut cfg = gen_cfg(&mut r);
+        cfg.s3 = r.chance(1, 4);
+        cfg.fold = true;
+        let o = GenOpts {
+            carrier: Some(crate::rm::decide::Carrier::Query),
+            allow_form: false,
+            other_carrier_decoys: false,
+            ..Default::default()
+        };
+        let mut l = gen_logical(&mut r, &cfg, &o);
+        l.method = "POST".into();
+        l.form_pairs = Some(gen_pairs(&mut r, 4));
+        l.body.clear();
+        l.content_type = Some(r.pick(&CT_FORM[..8]).to_vec());
+        let mut sr = Rng::keyed(seed, "C12", "body-repeats-spell", shard, i);
+        let mut sp = Speller {
+            r: &mut sr,
+            level: 0,
+        };
+        let ov = Overrides {
+            signature: Some(PH.to_string()),
+            ..Default::default()
+        };
+        let (mut wire, facts) = crate::gen::render(&l, &cfg, &mut sp, &ov);
+        let which = r.below(5);
+        let (name, other): (&str, String) = match which {
+            0 => ("X-Amz-Signature", r.string_from("0123456789abcdef", 64)),
+            1 => ("X-Amz-Date", l.t.plus_s(*r.pick(&[1i64, -1, 60, -600])).compact()),
+            2 => ("X-Amz-Credential", crate::rm::pct_encode(format!("AKIAOTHER/{}/{}/{}/aws4_request", l.t.yyyymmdd(), cfg.region, cfg.service).as_bytes())),
+            3 => ("X-Amz-SignedHeaders", "host%3Bx-other".to_string()),
+            _ => ("X-Amz-Algorithm", r.pick(&["AWS4-HMAC-SHA512", "AWS4", ""]).to_string()),
+        };
+        let piece = format!("{}={}", name, other);
+        if wire.body.is_empty() {
+            wire.body = piece.clone().into_bytes();
+        } else if r.coin() {
+            wire.body.push(b'&');
+            wire.body.extend_from_slice(piece.as_bytes());
+        } else {
+            let mut b = piece.clone().into_bytes();
+            b.push(b'&');
+            b.extend_from_slice(&wire.body);
+            wire.body = b;
+        }
+        let Ok(req) = crate::exec::build_request(&wire) else {
+            t.count("not_built_by_http");
+            continue;
+        };
+        let view = crate::exec::view_of(&req);
+        let mut c2 = cfg.clone();
+        c2.now = l.t.plus_s(r.range(-600, 600));
+        let Some(sig) = crate::rm::decide::sign_as(&view, &c2, &facts.credential, &l.signed, l.t, &l.secret) else {
+            t.count("body_repeats/unsignable");
+            continue;
+        };
+        let put = |hay: &mut Vec<u8>, from: &str, to: &str| {
+            let (f, tb) = (from.as_bytes(), to.as_bytes());
+            let mut k = 0;
+            while k + f.len() <= hay.len() {
+                if &hay[k..k + f.len()] == f {
+                    hay.splice(k..k + f.len(), tb.iter().copied());
+                    k += tb.len();
+                } else {
+                    k += 1;
+                }
+            }
+        };
+        let mut good = wire.clone();
+        put(&mut good.uri, PH, &sig);
+        let case = Case {
+            wire: good.clone(),
+            cfg: c2.clone(),
+            script: crate::model::Script::derive(&l.secret),
+        };
+        match judge_one(&mut t, &case, &format!("body-repeats/{}", name)) {
+            Some((true, _)) => t.count(&format!("body_repeats_url_copy_decides/{}", name)),
+            Some((false, st)) => t.count(&format!("body_repeats_refused_at/{}/{}", name, st.name())),
+            None => {}
+        }
+        if which == 0 {
+            // the twin: junk in the URL, the valid signature in the body
+            let mut twin = wire.clone();
+            put(&mut twin.uri, PH, &other);
+            put(&mut twin.body, &other, &sig);
+            let tcase = Case {
+                wire: twin,
+                cfg: c2,
+                script: crate::model::Script::derive(&l.secret),
+            };
+            let rec = execute(&tcase);
+            t.eval();
+            if rec.outcome.is_ok() {
+                t.violate(violation("folding", "body-copy-authenticates", "a presigned form whose URL carries a wrong X-Amz-Signature and whose folded body carries the valid one is accepted: the body's copy took precedence over the URL's".to_string(), &tcase, None));
+            } else {
+                t.count("body_repeats_valid_signature_in_body_refused");
+            }
+        }
+    }
+    t
+}
+
 fn bom_bodies(seed: u64, shard: u64, n: u64) -> Tally {
     let mut t = Tally::new();
     let bodies: [(&str, &[u8], bool); 15] = [
@@ -482,9 +592,13 @@ pub fn run(tier: Tier) -> i32 {
     tally.merge(plus);
     let bom = ctx.par(4, |s| bom_bodies(seed, s, tier.n(70, 7000)));
     tally.merge(bom);
+    let rep_ = ctx.par(8, |s| body_repeats_auth_parameter(seed, s, tier.n(300, 10_000)));
+    tally.merge(rep_);
     if let Err(e) = &pre {
         tally.inconclusive.push(e.clone());
     }
+    ctx.gate("presigned forms whose body repeats an authentication parameter with another value: accepted on the URL's copy", tally.sum_prefix("body_repeats_url_copy_decides/"), tier.n(1200, 40_000));
+    ctx.gate("presigned forms with a wrong signature in the URL and the valid one in the body, refused", tally.get("body_repeats_valid_signature_in_body_refused"), tier.n(250, 8000));
     ctx.gate("option-flip pairs: exactly the matching signature accepted under each option value", tally.get("option_flip_pairs_ok"), tier.n(2000, 50_000));
     ctx.gate("same name in URL and body, accepted when folded", tally.get("same_name_in_url_and_body_accepted"), tier.n(1000, 20_000));
     ctx.gate("other content types never fold", tally.get("non_form_never_folds_ok"), tier.n(1000, 20_000));
@@ -497,7 +611,7 @@ pub fn run(tier: Tier) -> i32 {
     ctx.gate("bodies ≥ 64 KiB accepted when hashed verbatim", tally.get("big_body_accepted"), tier.n(50, 1000));
     let rep = Report {
         level: "exploration",
-        rule: "URL parameter lists × body parameter lists of 0–10 pairs (controlled share of names occurring in both and repeated inside the body, empty values) × content-type spellings (form with/without charset=utf-8 variants, other media types, absent; letter-case / other-charset / quoted variants executed but not judged) × both option values. Each wire request is signed twice by the reference signer — over the merged multiset with the empty-body hash, and over the URL-only query with the verbatim body hash — and validated under both option values: exactly the matching signature must be accepted. Plus body byte flips (verbatim), parameter byte changes (folded), invalid UTF-8 / bad escapes / unknown charsets (must be 400), 70 KiB bodies; the returned URI's query multiset is checked against URL ⊎ body. Non-trivial = a four-way option-flip group decided correctly, or a flipped/undecodable body refused with the expected class; distinct by case hash.".into(),
+        rule: "URL parameter lists × body parameter lists of 0–10 pairs (controlled share of names occurring in both and repeated inside the body, empty values) × content-type spellings (form with/without charset=utf-8 variants, other media types, absent; letter-case / other-charset / quoted variants executed but not judged) × both option values. Each wire request is signed twice by the reference signer — over the merged multiset with the empty-body hash, and over the URL-only query with the verbatim body hash — and validated under both option values: exactly the matching signature must be accepted. Plus body byte flips (verbatim), parameter byte changes (folded), invalid UTF-8 / bad escapes / unknown charsets (must be 400), 70 KiB bodies; presigned form POSTs whose body repeats one authentication parameter of the URL with another value (signed as received: the URL's copy must decide; with the valid signature in the body and a wrong one in the URL the request must be refused); the returned URI's query multiset is checked against URL ⊎ body. Non-trivial = a four-way option-flip group decided correctly, or a flipped/undecodable body refused with the expected class; distinct by case hash.".into(),
         assumptions: vec!["media type compared in lower case; charsets other than UTF-8 that do decode are outside the statement (DESIGN §6)".into()],
         extra: J::obj().set("calibrated_vectors", J::i(pre.unwrap_or(0) as i64)),
     };
